@@ -54,6 +54,7 @@ TABLE = {
     'polygamma': (lambda m: (lambda x: mp.psi(m, x)), _dist_nonpos_int, 'Rpoles'),
     'hyperu': (lambda a, b: (lambda x: mp.hyperu(a, b, x)), _dist_pole0, 'pos'),
 }
+HIGH_ORDER_FNS = ['arcsin', 'arccos', 'arctan', 'arcsinh', 'arctanh', 'arccosh', 'erf', 'erfi', 'exp', 'expm1', 'log', 'log1p', 'sqrt', 'reciprocal', 'sin', 'cos', 'sinh', 'cosh', 'exp2', 'log2', 'log10', 'square']
 PIECEWISE = ['rint', 'fix', 'floor', 'ceil', 'trunc', 'sign', 'absolute', 'clip']
 HYPERU_PARAMS = [(0.5, 0.75), (1.0, 1.5), (1.5, 2.25), (2.5, 0.75), (-0.5, 1.5), (-1.5, 0.75), (-1.0, 1.5), (-2.0, 0.75), (-3, 0.5), (0.0, 1.25)]   # incl. the polynomial cases a = 0, -1, -2, ...
 POLYGAMMA_M = [0, 1, 2, 3]
@@ -67,6 +68,8 @@ def _points(name, dom, rng, tier):
     if dom == 'R':
         pts += [(float(v), 'random') for v in rng.normal(size=k) * 1.5]
         pts += [(0.0, 'zero'), (1e-9, 'tiny'), (-1e-9, 'tiny'), (1.0, 'integer'), (-2.0, 'integer'), (6.5, 'large'), (-7.25, 'large')]
+        if name in ('sin', 'cos'):
+            pts += [(1e10, 'huge'), (-3e15, 'huge'), (1e-12, 'tiny')]          # bounded functions: every derivative is as accurate as numpy.sin there
         # the last arguments at which the function and its derivatives are still representable
         pts += [(v, 'near-overflow') for v in NEAR_OVERFLOW.get(name, [])]
     elif dom == 'pos':
@@ -108,6 +111,10 @@ def cases(tier, seed):
                 nm = nmax if name != 'hyperu' else (4 if tier == 'quick' else 7)
                 for (x, cls) in _points(name, TABLE[name][2], rng, tier):
                     out.append({'kind': 'smooth', 'seed': s, 'params': {'fn': name, 'prm': list(prm), 'x': x, 'cls': cls, 'nmax': nm}})
+            if name in ('arctan', 'arcsinh', 'reciprocal', 'log', 'sqrt', 'log1p', 'log2', 'log10'):
+                out.append({'kind': 'largearg', 'seed': case_seed('C16', seed, 'largearg', name), 'params': {'fn': name}})
+            if name in HIGH_ORDER_FNS:
+                out.append({'kind': 'highorder', 'seed': case_seed('C16', seed, 'highorder', name), 'params': {'fn': name, 'nmax': 30 if tier == 'quick' else 40}})
             if name == 'hyperu':
                 # parameters spelled as integers (Python int, NumPy integer) and as floats, orders far beyond the generic sweep
                 for ia, a in enumerate([1, 3, 'int64:2', 7, 3.0, 'int32:5', 2]):
@@ -163,6 +170,45 @@ def run_case(ctx, case):
     f = getattr(ND, name)
     if case['kind'] == 'unknown':
         ctx.skip('no-reference:' + name)
+        return
+    if case['kind'] == 'largearg':
+        # arguments of large magnitude, orders 1 ... 8: the derivatives are tiny there (arctan^(n)(x) ~ (n-1)!/x^n), and as accurate
+        # RELATIVELY as anywhere else
+        mk, dist, dom = TABLE[name]
+        mf = mk()
+        for x in ((1e7, -1e7, 1e12, -1e12, -3e15) if dom not in ('pos', 'gt1', 'gtm1') else (1e7, 1e12, 3e15)):
+            for n in range(1, 9):
+                try:
+                    got = float(np.asarray(f(np.array([x]), n=n)).reshape(-1)[0])
+                    with mp.workdps(400):          # numerical differentiation of values ~ x^-n needs the digits
+                        ref = +mp.diff(mf, mp.mpf(x), n)
+                except Exception as e:
+                    ctx.skip('reference-unavailable:largearg'); continue
+                if ref == 0 or abs(ref) < mp.mpf('1e-290'):
+                    continue
+                rel = abs(mp.mpf(got) - ref) / abs(ref) if np.isfinite(got) else mp.inf
+                if not rel <= 1e-9:
+                    ctx.violation('%s:large-argument:relative-accuracy' % name, {'fn': name, 'x': x, 'n': n, 'got': got, 'want': mp.nstr(ref, 17), 'relative_error': float(rel) if rel != mp.inf else 'inf'}); break
+                ctx.ok(name, (name, 'largearg', n, x))
+        return
+    if case['kind'] == 'highorder':
+        # orders 12 ... 30 (40) in the interior of the domain, where these functions are well conditioned: RELATIVE accuracy (the
+        # Cauchy-bound scale of the generic sweep is far above the true value here and would hide a gradual loss of digits)
+        mk, dist, dom = TABLE[name]
+        mf = mk()
+        for x in ((0.01, 0.3, -0.45) if dom != 'pos' and dom != 'gt1' else (1.3, 2.6)):
+            for n in [n_ for n_ in (12, 16, 20, 25, 30, 35, 40) if n_ <= p['nmax']]:
+                try:
+                    got = float(np.asarray(f(np.array([x]), n=n)).reshape(-1)[0])
+                    ref = mp.diff(mf, mp.mpf(x), n)
+                except Exception as e:
+                    ctx.skip('reference-unavailable:highorder'); continue
+                if ref == 0:
+                    continue
+                rel = abs(mp.mpf(got) - ref) / abs(ref) if np.isfinite(got) else mp.inf
+                if not rel <= 1e-9:
+                    ctx.violation('%s:high-order:relative-accuracy' % name, {'fn': name, 'x': x, 'n': n, 'got': got, 'want': mp.nstr(ref, 17), 'relative_error': float(rel) if rel != mp.inf else 'inf'}); break
+                ctx.ok(name, (name, 'highorder', n, x))
         return
     if case['kind'] == 'hyperu_high':
         # d^n/dx^n U(a, b, x) = (-1)^n (a)_n U(a+n, b+n, x): reference from mpmath's own U and rising factorial
@@ -246,6 +292,19 @@ def run_case(ctx, case):
             return
         ctx.ok(name, (name, prm, n, p['cls']), noise=float(err),
                sample={'fn': name, 'prm': prm, 'x': x, 'n': n, 'got': float(np.real(g)), 'ref': mp.nstr(ref, 17)} if (n == 3 and p['cls'] == 'random') else None)
+    if p['cls'] == 'random':
+        # the order given as a NumPy integer (an element of numpy.arange), the point as a list / tuple of floats
+        for n in [int(v) for v in order][:4] + ([22, 30] if name not in ('gammaln', 'psi', 'polygamma', 'hyperu') else []):
+            for tag, call in (('numpy-integer-order', lambda: f(*(list(prm) + [np.array([x, x])]), n=np.int64(n))), ('numpy-int32-order', lambda: f(*(list(prm) + [np.array([x, x])]), n=np.int32(n))),
+                              ('list-point', lambda: f(*(list(prm) + [[x, x]]), n=n)), ('tuple-point', lambda: f(*(list(prm) + [(x, x)]), n=n))):
+                try:
+                    got = np.asarray(call())
+                except Exception as e:
+                    ctx.violation('%s:%s:raises' % (name, tag), {'fn': name, 'prm': prm, 'x': x, 'n': n, 'error': repr(e)[:200]}); return
+                want = np.asarray(_call(f, prm, x, n, 0))
+                if got.shape != want.shape or not np.array_equal(got, want, equal_nan=True):
+                    ctx.violation('%s:%s:value' % (name, tag), {'fn': name, 'prm': prm, 'x': x, 'n': n, 'got': got.tolist(), 'with_python_int_and_array': want.tolist()}); return
+                ctx.ok(name, (name, prm, n, tag))
     if p['cls'] == 'integer' and float(x) == int(x):
         # the same point given with an integer type (an array of ints, a Python int, a NumPy integer scalar): a derivative is not an
         # integer, the value is the same as at the float spelling (order 0 of `reciprocal` is NumPy's integer reciprocal by definition)
